@@ -9,7 +9,7 @@ namespace Genshi.San
 /-! ### the pruned forest (specification of what survives) -/
 
 mutual
-  /-- an element that is not safe disappears with everything inside; comments disappear; every
+  /-- an element that is not safe disappears with everything inside; comments and the markers of CDATA sections disappear; every
       other node stays, elements with their attributes filtered -/
   def prune (cfg : Cfg) : Node → Except Err (List Node)
     | .elem t a ks =>
@@ -21,6 +21,9 @@ mutual
     | .leaf e =>
       match e with
       | .comment _ => pure []
+      | .startCdata => pure []
+      | .doctype n p s => if dtHasGt n p s then pure [] else pure [.leaf (.doctype n p s)]
+      | .endCdata => pure []
       | .pi t d => if List.contains t '>' || List.contains d '>' then pure [] else pure [.leaf (.pi t d)]
       | e => pure [.leaf e]
   def pruneList (cfg : Cfg) : List Node → Except Err (List Node)
@@ -126,8 +129,17 @@ theorem keep_leaf (cfg : Cfg) (e : Event) (he : e.isStartEnd = false) (rest : St
       simp only [prune, hgt, Bool.false_eq_true, ↓reduceIte]
       simp [ho, flattenList, Node.flatten]
   | doctype n p s =>
-    have : step cfg St.init (.doctype n p s) = .ok (St.init, [.doctype n p s]) := rfl
-    rw [sanitizeFrom_ok_cons this]; simp [prune, ho, flattenList, Node.flatten]
+    by_cases hgt : dtHasGt n p s = true
+    · have : step cfg St.init (.doctype n p s) = .ok (St.init, []) := by
+        simp only [step, hgt, ↓reduceIte]; rfl
+      rw [sanitizeFrom_ok_cons this, bind_pure_nil]
+      simp only [prune, hgt, ↓reduceIte]
+      simp [ho, flattenList]
+    · have : step cfg St.init (.doctype n p s) = .ok (St.init, [.doctype n p s]) := by
+        simp only [step, hgt, Bool.false_eq_true, ↓reduceIte]; rfl
+      rw [sanitizeFrom_ok_cons this]
+      simp only [prune, hgt, Bool.false_eq_true, ↓reduceIte]
+      simp [ho, flattenList, Node.flatten]
   | xmlDecl v e s =>
     have : step cfg St.init (.xmlDecl v e s) = .ok (St.init, [.xmlDecl v e s]) := rfl
     rw [sanitizeFrom_ok_cons this]; simp [prune, ho, flattenList, Node.flatten]
@@ -138,11 +150,13 @@ theorem keep_leaf (cfg : Cfg) (e : Event) (he : e.isStartEnd = false) (rest : St
     have : step cfg St.init (.endNs p) = .ok (St.init, [.endNs p]) := rfl
     rw [sanitizeFrom_ok_cons this]; simp [prune, ho, flattenList, Node.flatten]
   | startCdata =>
-    have : step cfg St.init .startCdata = .ok (St.init, [.startCdata]) := rfl
-    rw [sanitizeFrom_ok_cons this]; simp [prune, ho, flattenList, Node.flatten]
+    have : step cfg St.init .startCdata = .ok (St.init, []) := rfl
+    rw [sanitizeFrom_ok_cons this]
+    simp [prune, ho, flattenList]
   | endCdata =>
-    have : step cfg St.init .endCdata = .ok (St.init, [.endCdata]) := rfl
-    rw [sanitizeFrom_ok_cons this]; simp [prune, ho, flattenList, Node.flatten]
+    have : step cfg St.init .endCdata = .ok (St.init, []) := rfl
+    rw [sanitizeFrom_ok_cons this]
+    simp [prune, ho, flattenList]
 
 mutual
   theorem keep_node (cfg : Cfg) : ∀ (n : Node) (rest : Stream), n.ok = true →
